@@ -9,6 +9,7 @@ import (
 	"bytes"
 	"fmt"
 	"math/rand/v2"
+	"os"
 	"runtime"
 	"sort"
 	"strconv"
@@ -373,6 +374,11 @@ func (s *Sched) Loop(root *Task) {
 			s.mu.Lock()
 			s.Deadlock = s.describeLocked()
 			s.mu.Unlock()
+			if os.Getenv("VERIF_VERBOSE") != "" {
+				buf := make([]byte, 1<<20)
+				n := runtime.Stack(buf, true)
+				fmt.Println(string(buf[:n]))
+			}
 			break
 		}
 		idle = 0
